@@ -32,7 +32,7 @@ type Common struct {
 	//            vh.NewRng(Seed, Prop, "ctx", 0) — what pkg/mpc/session/testutils.MakeRandomContexts does
 	Session string
 	// KeySource selects where the key shares come from (drivers that deal fresh keys):
-	// "" / "dealer" trusted dealer, "gennaro" the real Gennaro DKG (see Material).
+	// "" / "dealer" trusted dealer, "gennaro" / "canetti" the real DKG (see Material).
 	KeySource string
 	// API selects how the protocol is executed: "" / "rounds" round by round through drive.Pass,
 	// "runner" through the package's networked runner (NewRunner + network.Router over an
